@@ -542,6 +542,25 @@ pub fn run(tier: &str) -> Result<Report, String> {
         operator_lists.push(long.clone());
         operator_lists.push(long.into_iter().rev().collect());
     }
+    // thorough: the tool's own driver loop gets the breadth of a node-bounded family: every closed formula with <= 3 nodes over
+    // all operators and every closed extended formula with <= 3 nodes, in formula files of 7 lines each
+    let mut ext_chunks: Vec<Vec<String>> = vec![];
+    if tier != "quick" {
+        use crate::formulas::{Alphabet, Gen, Names};
+        let nm = Names::user(&["a".to_string(), "b".to_string()]);
+        let all: Vec<String> = Gen::new(Alphabet::all_ops(2, 2)).closed_up_to(5).iter().map(|f| f.show(&nm)).collect();
+        rep.set("node_bounded_plain_formulae_through_the_tool", json!(all.len()));
+        for c in all.chunks(7) {
+            operator_lists.push(c.to_vec());
+        }
+        // label names of the extended lists of this check: p (wild-card), d and dom_1 (domains)
+        let mut nm2 = nm.clone();
+        nm2.wilds = vec!["p".into(), "unused".into()];
+        nm2.doms = vec!["d".into(), "dom_1".into()];
+        let ext: Vec<String> = Gen::new(Alphabet::extended(2, 2, 1, 2)).closed_up_to(3).iter().filter(|f| f.uses_wild_or_dom()).map(|f| f.show(&nm2)).collect();
+        rep.set("node_bounded_extended_formulae_through_the_tool", json!(ext.len()));
+        ext_chunks = ext.chunks(7).map(|c| c.to_vec()).collect();
+    }
     let prints = ["no-print", "summary", "with-progress", "exhaustive"];
     let mut cases: Vec<(Arc<Bound>, Case)> = vec![];
     // context sets that are not confined to the valid colours (constrained networks)
@@ -591,6 +610,10 @@ pub fn run(tier: &str) -> Result<Report, String> {
                 }
             }
             if fmt == "aeon" {
+                for (li, l) in ext_chunks.iter().enumerate() {
+                    let print = if li % 2 == 0 { "summary" } else { "exhaustive" };
+                    cases.push((b.clone(), Case { fmt: fmt.into(), layout: li % LAYOUTS, print: print.into(), with_out: li % 3 == 0, formulas: l.clone(), ctx: Some(ctx_labels.clone()), ctx_k_delta: 0, same_path: li % 6 == 0 }));
+                }
                 for (li, l) in operator_lists.iter().enumerate() {
                     let print = if li % 2 == 0 { "summary" } else { "exhaustive" };
                     cases.push((b.clone(), Case { fmt: fmt.into(), layout: li % LAYOUTS, print: print.into(), with_out: li % 3 == 0, formulas: l.clone(), ctx: None, ctx_k_delta: 0, same_path: false }));
